@@ -83,7 +83,8 @@ def run(tier, seed):
                 ss.append(line("src", "z%d" % j, sx(b)))
                 for f in ("html", "latex", "fodt", "opml"):
                     ss.append(line("conv", "s_conv", "z%d" % j, docs.FMT[f], docs.STD, 0))
-                ss.append(line("conv", "s_data", "z%d" % j, docs.FMT["epub"], docs.STD | docs.EXT["COMPLETE"], 0))
+                for f in ("epub", "odt", "bundlezip", "itmz"):
+                    ss.append(line("conv", "s_data", "z%d" % j, docs.FMT[f], docs.STD | (docs.EXT["COMPLETE"] if f == "epub" else 0), 0))
             segs.append(ss)
         # transclusion of hostile sources (markers of every length around the 1000-byte cap, unterminated / nested markers)
         wd = scratch("c01tx")
